@@ -358,6 +358,9 @@ func (i InfixExpression) PrettyPrint(out *PrintState) *PrintState {
 		out.Print(" ", i.Literal(), " ")
 	}
 	if i.Right != nil {
+		if needRightParen(i.Token, i.Right) {
+			out.ExpressionPrecedence++ // binary operators are left associative: a-(b-c) isn't a-b-c.
+		}
 		i.Right.PrettyPrint(out)
 	}
 	if needParen {
@@ -365,6 +368,24 @@ func (i InfixExpression) PrettyPrint(out *PrintState) *PrintState {
 	}
 	out.ExpressionPrecedence = oldPrecedence
 	return out
+}
+
+// Right operand of same precedence needs its parentheses kept, except for a chain of the same
+// associative operator which is printed flat: 1 + (2 + 3) is shown as 1 + 2 + 3.
+func needRightParen(t *token.Token, right Node) bool {
+	r, ok := right.(*InfixExpression)
+	if !ok || Precedences[r.Type()] != Precedences[t.Type()] {
+		return false
+	}
+	if r.Type() != t.Type() {
+		return true
+	}
+	switch t.Type() { //nolint:exhaustive // only the associative operators.
+	case token.PLUS, token.ASTERISK, token.BITAND, token.BITOR, token.BITXOR, token.AND, token.OR:
+		return false
+	default:
+		return true
+	}
 }
 
 type Boolean struct {
